@@ -1413,7 +1413,12 @@ def isunresolvable(t: tp.Any) -> bool:
         True
     """
     # A parameterized callable (`Callable[[int], str]`) is as opaque as the bare one.
-    return t in _UNRESOLVABLE or tp.get_origin(t) in (abc_Callable, tp.Callable)
+    #   So is a class object (`type`, `type[int]`).
+    return (
+        t in _UNRESOLVABLE
+        or t is type
+        or tp.get_origin(t) in (abc_Callable, tp.Callable, type)
+    )
 
 
 _UNRESOLVABLE = (
